@@ -961,6 +961,71 @@ func (a *Analysis) detectWalker() {
 	}
 }
 
+// gateHolder: the function in which the size gate on param is to be looked for.  An entry point
+// of one block that does nothing with the parameter but hand it to one call of a module
+// function and returns that call's results in order (`return NewGenerator(lang).FromEntropy(entropy)`,
+// a package-level function kept as a forward to a method of a new type) has its gate in that
+// function; whatever else the entry point computes (the receiver it builds) is followed by the
+// evaluation, which starts at the entry point as before.
+func (a *Analysis) gateHolder(rule string, fn *ssa.Function, param *ssa.Parameter) (*ssa.Function, *ssa.Parameter) {
+	for depth := 0; depth < 3; depth++ {
+		if len(fn.Blocks) != 1 {
+			break
+		}
+		var call *ssa.Call
+		idx := -1
+		ok := true
+		for _, ref := range *param.Referrers() {
+			switch x := ref.(type) {
+			case *ssa.DebugRef:
+			case *ssa.Call:
+				if call != nil {
+					ok = false
+				}
+				call = x
+			default:
+				ok = false
+			}
+		}
+		if !ok || call == nil {
+			break
+		}
+		g := call.Call.StaticCallee()
+		if g == nil || !a.isModuleFunc(g) || len(g.Blocks) == 0 || g == fn || len(g.Params) != len(call.Call.Args) {
+			break
+		}
+		for i, arg := range call.Call.Args {
+			if arg == ssa.Value(param) {
+				if idx >= 0 {
+					ok = false
+				}
+				idx = i
+			}
+		}
+		if !ok || idx < 0 {
+			break
+		}
+		ret, _ := fn.Blocks[0].Instrs[len(fn.Blocks[0].Instrs)-1].(*ssa.Return)
+		if ret == nil || len(ret.Results) != g.Signature.Results().Len() {
+			break
+		}
+		for i, v := range ret.Results {
+			if len(ret.Results) == 1 && v == ssa.Value(call) {
+				continue
+			}
+			if ex, isEx := v.(*ssa.Extract); !isEx || ex.Tuple != ssa.Value(call) || ex.Index != i {
+				ok = false
+			}
+		}
+		if !ok {
+			break
+		}
+		a.R.OK("ANCHOR", fn.Name()+"/gate-in", a.P.Pos(fn.Pos()), "", "%s hands %s to %s and returns its results: the size gate (%s) is looked for there", fnKey(fn), param.Name(), fnKey(g), rule)
+		fn, param = g, g.Params[idx]
+	}
+	return fn, param
+}
+
 func (a *Analysis) ruleGates() {
 	semPredMu.Lock()
 	semPredByProg[a.P.SSA] = a.semanticPredicate
@@ -993,18 +1058,26 @@ func (a *Analysis) ruleGates() {
 		if param == nil {
 			a.R.Unk("G1", "NewMnemonicByEntropy/subject", a.P.Pos(a.NME.Pos()), "", "no []byte parameter")
 		} else {
+			gfn, param := a.gateHolder("G1", a.NME, param)
+			a.Gate1Param = param
 			subj := map[ssa.Value]bool{}
 			same := map[ssa.Value]bool{param: true}
 			for _, v := range spilledLoads(param) {
 				same[v] = true
 			}
-			for _, c := range callsIn(a.NME) {
+			for _, c := range callsIn(gfn) {
 				if calleeName(c) == "len" && same[c.Common().Args[0]] {
 					subj[c.Value()] = true
 				}
 			}
-			res := AnalyseGate(a.NME, subj, a.NME.Blocks[0], ZRange(0, maxLen), bits, a.gateTables, a.isModuleFunc)
-			a.Gate1 = a.checkGate(gateSpec{rule: "G1", fn: a.NME, what: "len(" + param.Name() + ")", spec: specEntLens(), sentinel: "ErrEntropyLen", strResult: true, kind: "L"}, res)
+			if len(subj) == 0 {
+				// the length is never taken here: the parameter itself stands for it where it is
+				// handed to an error-returning constructor of the module that takes it
+				// (`ent, err := NewEntropy(entropy); if err != nil { return "", err }`)
+				subj[param] = true
+			}
+			res := AnalyseGate(gfn, subj, gfn.Blocks[0], ZRange(0, maxLen), bits, a.gateTables, a.isModuleFunc)
+			a.Gate1 = a.checkGate(gateSpec{rule: "G1", fn: gfn, what: "len(" + param.Name() + ")", spec: specEntLens(), sentinel: "ErrEntropyLen", strResult: true, kind: "L"}, res)
 		}
 	}
 	// G2: the int parameter of NewMnemonic
@@ -1018,12 +1091,14 @@ func (a *Analysis) ruleGates() {
 		if param == nil {
 			a.R.Unk("G2", "NewMnemonic/subject", a.P.Pos(a.NM.Pos()), "", "no int parameter")
 		} else {
+			gfn, param := a.gateHolder("G2", a.NM, param)
+			a.Gate2Param = param
 			subj := map[ssa.Value]bool{param: true}
 			for _, v := range spilledLoads(param) {
 				subj[v] = true
 			}
-			res := AnalyseGate(a.NM, subj, a.NM.Blocks[0], ZRange(minInt, maxInt), bits, a.gateTables, a.isModuleFunc)
-			a.Gate2 = a.checkGate(gateSpec{rule: "G2", fn: a.NM, what: param.Name(), spec: specWordCounts(), sentinel: "ErrWordLen", allowLateFail: true, strResult: true, kind: "W"}, res)
+			res := AnalyseGate(gfn, subj, gfn.Blocks[0], ZRange(minInt, maxInt), bits, a.gateTables, a.isModuleFunc)
+			a.Gate2 = a.checkGate(gateSpec{rule: "G2", fn: gfn, what: param.Name(), spec: specWordCounts(), sentinel: "ErrWordLen", allowLateFail: true, strResult: true, kind: "W"}, res)
 		}
 	}
 	// G3: len(tokens) in CheckMnemonic
@@ -1089,6 +1164,7 @@ func (a *Analysis) ruleGates() {
 			a.R.Unk("G3", "CheckMnemonic/subject", a.P.Pos(a.CM.Pos()), "", "expected exactly one tokeniser call (strings.Split or strings.Fields) in CheckMnemonic or the module functions it calls, found %d", n)
 		} else {
 			tokFn := tok.Parent()
+			a.TokCall = tok
 			subj := map[ssa.Value]bool{}
 			for _, c := range callsIn(tokFn) {
 				if calleeName(c) == "len" && c.Common().Args[0] == ssa.Value(tok) {
